@@ -4,6 +4,7 @@
 
 from .node import Node
 from .variable import Menu, MenuItem
+from .constant_val import ConstantValue
 from enum import Enum
 from typing import Optional, cast, Dict
 from ..util import vsprintf, get_keys
@@ -259,13 +260,32 @@ class BinaryOperation(Node):
                             l.generate_js(indentation, factory_method),
                             r.generate_js(indentation, factory_method))
         elif op.startswith('.'):
-            return vsprintf("%s%s(%s)",
-                            l.generate_js(indentation, factory_method), op,
+            left: str = l.generate_js(indentation, factory_method)
+            if ((isinstance(l, UnaryOperation) and l.name in ('minus', 'not'))
+                or (isinstance(l, ConstantValue)
+                    and not str(l.name).startswith('"'))):
+                # A number or a signed value as receiver of the method call
+                left = vsprintf("(%s)", left)
+            return vsprintf("%s%s(%s)", left, op,
                             r.generate_js(indentation, factory_method))
         else:  
             return vsprintf("(%s %s %s)",
                                  l.generate_js(indentation, factory_method), op,
                                  r.generate_js(indentation, factory_method))
+
+#
+# Encloses the JavaScript code of a node in parentheses (condition of an if or
+# a loop, object of a with) unless it already is a parenthesised expression.
+# 
+def js_between_parentheses(node: Node, code: str) -> str:
+    op: str = '.'
+    if isinstance(node, BinaryOperation):
+        op = JS_BIN_OP.get(node.name, '.')
+    text: str = vsprintf("%s", code)
+    if (op.startswith('.') or op.startswith('sprite(')
+        or not text.startswith('(')):
+        return vsprintf("(%s)", text)
+    return text
 
 #
 # Special Assign Operation class.
